@@ -155,7 +155,7 @@ func checkC07(c *hx.Checker) {
 		}
 	}
 	// larger shapes beyond the exhaustive box
-	for _, sh := range [][]int{{4, 5, 6}, {7, 1, 9}, {2, 3, 4, 5, 6}, {64}, {1, 128}} {
+	for _, sh := range [][]int{{4, 5, 6}, {7, 1, 9}, {2, 3, 4, 5, 6}, {64}, {1, 128}, {4099}, {3, 1367}, {1, 32771}, {7, 1, 9363}} {
 		data := ref.Distinct(ref.F32, sh)
 		n := int64(ref.NElem(sh))
 		for _, t := range [][]int64{{-1}, {n}, {2, -1}, {0, -1}, {-1, int64(sh[len(sh)-1])}, {n, 1, 1}, {3, -1}, {n + 1}} {
